@@ -162,6 +162,9 @@ type Chain struct {
 	Halted          string
 	LastAppHash     []byte
 	rnd             *rand.Rand
+	seq0            map[int]uint64
+	noSnap          bool
+	anteHint        []bool
 }
 
 func bp(x int64) sdkmath.LegacyDec { return sdkmath.LegacyNewDecWithPrec(x, 4) }
@@ -283,6 +286,10 @@ func NewChain(keys *Keys, g Genesis) (*Chain, *abci.ResponseInitChain, error) {
 	c.Cur = cmttypes.NewValidatorSet(vals)
 	c.Next = c.Cur.Copy()
 	c.LastAppHash = resp.AppHash
+	c.seq0 = map[int]uint64{}
+	for _, id := range []int{0, 1, 2, 3, 4, 5, 6, 7, adminID, user1ID} {
+		_, c.seq0[id] = c.accountNumSeq(id)
+	}
 	return c, resp, nil
 }
 
